@@ -237,7 +237,8 @@ class MetadataGenerator:
                 other_types.append(item)
 
         if int in other_types and float in other_types:
-            other_types.remove(int)
+            while int in other_types:
+                other_types.remove(int)
 
         if types_to_merge:
             other_types.append(self.merge_field_sets(types_to_merge))
